@@ -31,7 +31,7 @@ import z3
 
 from .. import core as C
 from .. import tensor as T
-from ..core import INT, REAL, Builtin, Closure, PyRaise, Sym, Unsupported
+from ..core import INT, REAL, Builtin, PyRaise, Sym, Unsupported
 from ..tensor import Tensor
 from . import LIB
 from . import builtins_model, np_model, jax_model  # noqa: F401  (wrapped below: load them first)
